@@ -126,3 +126,105 @@ Definition tokens_roundtrip_okb (d : Q) (tr back : list item) : bool :=
               | Timed x s e, Timed y s' e' => tk_eqb x y && within_shiftb d s s' && within_shiftb d e e'
               | _, _ => false
               end) tr back.
+
+(* ====================================================================================== *)
+(* vocabulary of the theorems                                                              *)
+(* ====================================================================================== *)
+
+(* ---- ctm ---- *)
+
+Definition t_tok (tk : timed) : str := fst (fst tk).
+
+Definition t_start (tk : timed) : Z := snd (fst tk).
+
+Definition t_end (tk : timed) : Z := snd tk.
+
+(* the argument write_ctm gets: every token carries its times *)
+Definition with_times (ts : list (str * list timed)) : list (str * list (str * option (Z * Z))) :=
+  map (fun ut => (fst ut, map (fun tk => (t_tok tk, Some (t_start tk, t_end tk))) (snd ut))) ts.
+
+(* utt2wc[utt] *)
+Definition key_of (m : utt2wc_t) (u : str) : option (str * str) :=
+  match m with inl d => assoc str_eqb u d | inr ch => Some (u, ch) end.
+
+(* what read_ctm maps (wfn, chan) back to *)
+Definition utt_of (wc2utt : option (list ((str * str) * str))) (wc : str * str) : option str :=
+  match wc2utt with None => Some (fst wc) | Some inv => assoc wc_eqb wc inv end.
+
+Definition tok_key (tk : timed) : Z * Z * str := (t_start tk, t_end tk - t_start tk, t_tok tk).
+
+Definition tok3_cmp (a b : timed) : comparison :=
+  pair_cmp (pair_cmp Z.compare Z.compare) str_cmp (tok_key a) (tok_key b).
+
+Definition tok3_leb := leb_of tok3_cmp.
+
+(* the mandated order of utterances: by (waveform, channel) *)
+Definition key_leb (key : str -> str * str) (a b : str * list timed) : bool :=
+  leb_of wc_cmp (key (fst a)) (key (fst b)).
+
+Definition expected (key : str -> str * str) (ts : list (str * list timed)) : list (str * list timed) :=
+  map (fun ut => (fst ut, sort_by tok3_leb (snd ut))) (sort_by (key_leb key) ts).
+
+Definition valid_tok (tk : timed) : Prop := 0 <= t_start tk <= t_end tk.
+
+Record ctm_ok (m : utt2wc_t) (wc2utt : option (list ((str * str) * str))) (key : str -> str * str)
+  (ts : list (str * list timed)) : Prop := mkCtmOk
+  { ok_nodup : NoDup (map fst ts);                                   (* distinct utterance ids *)
+    ok_key : forall u tr, In (u, tr) ts -> key_of m u = Some (key u);  (* utt2wc covers them *)
+    ok_inv : forall u tr, In (u, tr) ts -> utt_of wc2utt (key u) = Some u;  (* wc2utt inverts it *)
+    ok_nonempty : forall u tr, In (u, tr) ts -> tr <> [];
+    ok_times : forall u tr, In (u, tr) ts -> Forall valid_tok tr }.
+
+(* ---- printed decimals ---- *)
+
+(* the value that comes back: the printed decimal *)
+Definition rq (p : nat) (x : Q) : Q := Qmake (fmt_num p x) (Z.to_pos (pow10 p)).
+
+(* ---- TextGrid ---- *)
+
+Definition tier_min (tr : list entry) : Q :=
+  match tr with [] => 0%Q | x0 :: rest => fold_left (fun m x => qmin m (e_start x)) rest (e_start x0) end.
+
+Definition tier_max (tr : list entry) : Q :=
+  match tr with [] => 0%Q | x0 :: rest => fold_left (fun m x => qmax m (e_end x)) rest (e_end x0) end.
+
+Definition is_point (tr : list entry) (pt : option bool) (p : nat) : bool :=
+  match pt with
+  | Some b => b
+  | None => forallb (fun x => str_eqb (fmt_time p (e_start x)) (fmt_time p (e_end x))) tr
+  end.
+
+Definition rt (p : nat) (point : bool) (x : entry) : entry :=
+  (e_tok x, rq p (e_start x), if point then rq p (e_start x) else rq p (e_end x)).
+
+Definition entry_nonneg (x : entry) : Prop := (0 <= e_start x)%Q /\ (0 <= e_end x)%Q.
+
+Definition no_nl (t : str) : Prop := ~ In c_nl t.
+
+Definition tier_id_ok (tid : tier_id_t) (name : str) : Prop :=
+  tid = inr 0 \/ tid = inr (-1) \/ tid = inl name.
+
+(* entries in time order, not overlapping, inside [t, xmax] *)
+Fixpoint chain_ok (t xmax : Q) (l : list entry) : Prop :=
+  match l with
+  | [] => (t <= xmax)%Q
+  | x :: r => (t <= e_start x)%Q /\ (e_start x <= e_end x)%Q /\ chain_ok (e_end x) xmax r
+  end.
+
+(* ---- tokens ---- *)
+
+Definition back (d : Q) (f : Z) : Q := (inject_Z f * d / 1000)%Q.
+
+Definition swap_pairs {A B} (l : list (A * B)) : list (B * A) := map (fun p => (snd p, fst p)) l.
+
+Definition item_close (d : Q) (a b : item) : Prop :=
+  match a, b with
+  | Plain x, Plain y => x = y
+  | Timed x s e, Timed y s' e' => x = y /\ within_shift d s s' /\ within_shift d e e'
+  | _, _ => False
+  end.
+
+Definition item_tok (a : item) : tk := match a with Plain t => t | Timed t _ _ => t end.
+
+Definition item_times_ok (a : item) : Prop :=
+  match a with Plain _ => True | Timed _ s e => (0 <= s)%Q /\ (s <= e)%Q end.
